@@ -454,7 +454,7 @@ type coldResult struct {
 // runCold executes this very case in a fresh process in which nothing of the
 // library has run yet when the tasks start: lazily initialised package-level
 // state is then first touched from several tasks.
-func (p *c11) runCold(c *verifsim.Chooser, st *Stats, render bool) *Outcome {
+func (p *c11) runCold(c *verifsim.Chooser, st *Stats, render bool, tz string) *Outcome {
 	o := &Outcome{}
 	args := []string{"-prop", "C11", "-cold-seed", fmt.Sprint(c.Seed0)}
 	if c.IsReplay() {
@@ -471,6 +471,10 @@ func (p *c11) runCold(c *verifsim.Chooser, st *Stats, render bool) *Outcome {
 	}
 	cmd := childCommand(os.Args[0], args...)
 	cmd.Env = append(os.Environ(), "VERIF_C11_CHILD=1")
+	if tz != "" {
+		cmd.Env = append(cmd.Env, "TZ="+tz)
+		st.probe("cold-start-with-TZ-set")
+	}
 	var ob, eb bytes.Buffer
 	cmd.Stdout, cmd.Stderr = &ob, &eb
 	done := make(chan error, 1)
@@ -511,10 +515,14 @@ func (p *c11) runCold(c *verifsim.Chooser, st *Stats, render bool) *Outcome {
 }
 
 func (p *c11) Run(c *verifsim.Chooser, st *Stats, render bool) *Outcome {
-	cold := c.Intn(30) == 1
+	// one case in thirty runs in a fresh process (nothing of the library has
+	// run there yet); the same draw says under which $TZ (unset, or one of two
+	// named zones: built-ins that depend on the environment take other paths)
+	k := c.Intn(90)
+	cold := k >= 1 && k <= 3
 	inChild := os.Getenv("VERIF_C11_CHILD") != ""
 	if cold && !inChild {
-		return p.runCold(c, st, render)
+		return p.runCold(c, st, render, []string{"", "Europe/Berlin", "Asia/Kolkata"}[k-1])
 	}
 	o := &Outcome{}
 	setDesc("concurrency simulation")
